@@ -150,6 +150,20 @@ void adapter_exec(Ev *ev)
             if (rcclass(rc3) != rcclass(rc) || b3.offset != 3 + b.offset || (rc >= 0 && u3 != u)) c = -998;
             xfree(blk3);
         }
+        /* unpacking in place: the result object is the memory the string starts in (aligned, at least as large as the object): the
+         * same verdict, count and value as with a result object elsewhere */
+        for (int sg = 0; sg < 2; sg++) {
+            size_t room = n > 8 ? n : 8;
+            unsigned char *ip = aligned_alloc(8, (room + 7) & ~(size_t)7);
+            memset(ip, 0x80, (room + 7) & ~(size_t)7);
+            for (size_t i = 0; i < n; i++) ip[i] = blk[i];
+            ByteBuffer bi = BYTE_BUFFER(ip, n);
+            int rci; uint64_t vi = 0;
+            if (ty == 32) { rci = sg ? varint_decode_s32(&bi, (int32_t *)ip) : varint_decode_u32(&bi, (uint32_t *)ip); if (rci >= 0) { uint32_t t; memcpy(&t, ip, 4); vi = t; } }
+            else { rci = sg ? varint_decode_s64(&bi, (int64_t *)ip) : varint_decode_u64(&bi, (uint64_t *)ip); if (rci >= 0) memcpy(&vi, ip, 8); }
+            if (rcclass(rci) != rcclass(rc) || bi.offset != b.offset || (rc >= 0 && vi != u)) c = -997;
+            free(ip);
+        }
         obs(ev, c);
         obs(ev, (long long)b.offset);
         if (rc >= 0) groups(ev, u, m);
